@@ -12,6 +12,9 @@ import CamVerif.Proofs.C05Eval
 import CamVerif.Proofs.C05Parse
 import CamVerif.Proofs.C05Spell
 import CamVerif.Proofs.C05Lex
+import CamVerif.Proofs.C05LexHex
+import CamVerif.Proofs.C05LexAdj
+import CamVerif.Spec.FormulaLazy
 import CamVerif.Gen.FormulaTables
 namespace CamVerif.C05
 open CamVerif CamVerif.Formula CamVerif.Formula.Proofs
@@ -243,8 +246,9 @@ def Lexable : Expr F → Prop
 /-- Earlier formulation of the character-level statement with `toString` as the decimal printer
 and single blanks (kept as a checked definition).  Its content is proved as `parse_print_chars`
 (section 9) for `Spec.printChars`, which is more general: any XML-escape choice, any
-white-space gaps.  Still outside every theorem: float literal text, hexadecimal literal text,
-tokens written without white space between them (differential only). -/
+white-space gaps.  Hexadecimal literal text, float literal text and tokens written without white
+space between them are covered by sections 10, 12 and 13 (`lex_hex_literal`, `lex_gapfree`,
+`lex_float_literal`, `parse_print_gapfree`). -/
 def C05_parse_print_string_statement : Prop :=
   ∀ (e : Expr F), Spec.LegalIdents e → Lexable e → parseChars (spell (Spec.printMin e)) = .ok e
 
@@ -756,5 +760,529 @@ example : parseChars (F := F)
     · exact ⟨⟨'a', [], rfl, by decide, by decide⟩, by simp, by simp [isSpace]⟩
     · exact ⟨trivial, by simp, by simp [isSpace]⟩
     · exact ⟨by simp [Spec.Spellable, I64_MAX], by simp, by simp [isSpace]⟩
+
+/-! ## 10. Character level: hexadecimal literals, escapes in both positions of an operator -/
+
+/-- **lex_hex_literal**: for EVERY non-empty string `hs` of hexadecimal digits (any case, any
+number of leading zeros, any length) and both prefixes `0x` / `0X`, the lexer reads
+`0x` + `hs` (followed by white space) as the integer token whose 64 bit pattern is the value of
+the digit string when that value is below 2^64 (bit 63 set: a negative `i64`, fix b328f77), and
+refuses it (the lexer panic marker) otherwise. -/
+theorem lex_hex_literal (bigX : Bool) (hs : List Char) (sp : Char) (rest : List Char)
+    (hne : hs ≠ []) (hall : hs.all isHexDigit = true) (hsp : isSpace sp = true) :
+    (lexOne ('0' :: (if bigX then 'X' else 'x') :: hs ++ sp :: rest) : Option (Tok F × List Char)) =
+      some (if hexToNat hs < 2 ^ 64 then .int (BitVec.ofNat 64 (hexToNat hs)) else .bad, sp :: rest) := by
+  rw [(lexOne_hex (F := F) bigX hs sp rest hne hall hsp).1]
+  simp [hexTok]
+
+/-- **hex_spelling_value**: the value of a digit string is the number it spells: for every
+`n`, every number of leading zeros and every per-digit choice of upper/lower case, the digits
+`Spec.hexDigits` of `n` (positional base 16 printer of the Spec) have value `n`, consist of
+hexadecimal digits, and are not empty. -/
+theorem hex_spelling_value (zeros : Nat) (up : Nat → Bool) (n : Nat) :
+    hexToNat (List.replicate zeros '0' ++ Spec.hexDigits up n) = n ∧
+    (List.replicate zeros '0' ++ Spec.hexDigits up n).all isHexDigit = true := by
+  refine ⟨by rw [hexToNat_leading_zeros, (hexDigits_ok up n).1], ?_⟩
+  rw [List.all_eq_true]
+  intro c hc
+  rcases List.mem_append.mp hc with hc | hc
+  · rw [(List.mem_replicate.mp hc).2]; decide
+  · exact (hexDigits_ok up n).2.1 c hc
+
+/-- **lex_hex_value**: for every 64 bit pattern `v`, every prefix (`0x`/`0X`), every number of
+leading zeros and every case choice, the lexer reads that spelling as the integer token `v`. -/
+theorem lex_hex_value (bigX : Bool) (zeros : Nat) (up : Nat → Bool) (v : BitVec 64) (sp : Char)
+    (rest : List Char) (hsp : isSpace sp = true) :
+    (lexOne (Spec.hexChars bigX zeros up v.toNat ++ sp :: rest) : Option (Tok F × List Char)) =
+      some (.int v, sp :: rest) :=
+  (lexesAs_hex (F := F) bigX zeros up v sp rest hsp).1
+
+/-- **lex_hex_too_long**: more than 16 significant digits (a first digit other than `0` followed
+by at least 16 more) is refused: `u64::from_str_radix(..).unwrap()` panics. -/
+theorem lex_hex_too_long (bigX : Bool) (d : Char) (tl : List Char) (sp : Char) (rest : List Char)
+    (hd : isHexDigit d = true) (hd0 : 1 ≤ hexDigitVal d) (hall : tl.all isHexDigit = true)
+    (hlen : 16 ≤ tl.length) (hsp : isSpace sp = true) :
+    (lexOne ('0' :: (if bigX then 'X' else 'x') :: (d :: tl) ++ sp :: rest) : Option (Tok F × List Char)) =
+      some (.bad, sp :: rest) := by
+  rw [lex_hex_literal bigX (d :: tl) sp rest (by simp) (by simp [hd, hall]) hsp]
+  have := hexToNat_too_long d tl hd0 hlen
+  rw [if_neg (by omega)]
+
+/- `0x00fF` is 255; `0XFFFFFFFFFFFFFFFF` is -1; 17 significant digits are refused, 17 digits with a
+leading zero are not. -/
+example : @lexOne Unit unitFloatOps "0x00fF ".toList = some (.int 255, [' ']) ∧
+    @lexOne Unit unitFloatOps "0XFFFFFFFFFFFFFFFF ".toList = some (.int (-1), [' ']) ∧
+    @lexOne Unit unitFloatOps "0x10000000000000000 ".toList = some (.bad, [' ']) ∧
+    @lexOne Unit unitFloatOps "0x08000000000000000 ".toList =
+      some (.int (BitVec.ofNat 64 (2 ^ 63)), [' ']) := by
+  decide +kernel
+
+example : Spec.hexChars true 2 (fun i => i % 2 == 0) 0xBEEF = "0X00BeEf".toList ∨
+    Spec.hexChars true 2 (fun i => i % 2 == 0) 0xBEEF = "0X00bEeF".toList := by
+  decide +kernel
+
+/-- **lex_printLits**: `lex_printChars` with hexadecimal literals: every token may be spelled
+canonically (operators with any escape choice, identifiers, decimal integers) or, for an
+integer token of ANY 64 bit pattern, as a hexadecimal literal (any prefix, leading zeros, case);
+the lexer returns exactly the token list. -/
+theorem lex_printLits (lead : List Char) (ps : List (Spec.LitPiece F))
+    (hl : lead.all isSpace = true) (h : ∀ p ∈ ps, p.lit.Ok ∧ Spec.GoodGap p.gap) :
+    (lex (Spec.printLits lead ps) : List (Tok F)) = ps.map (·.lit.tok) :=
+  lex_printLits_aux lead ps hl h
+
+/-- **parse_print_lits**: `formula::parse` on any such spelling of the minimal-parenthesis print
+of a tree returns that tree — integer literals of the tree may now be any 64 bit pattern
+(negative values through their hexadecimal spelling). -/
+theorem parse_print_lits (e : Expr F) (he : Spec.LegalIdents e) (lead : List Char)
+    (ps : List (Spec.LitPiece F)) (hps : ps.map (·.lit.tok) = Spec.printMin e)
+    (hl : lead.all isSpace = true) (h : ∀ p ∈ ps, p.lit.Ok ∧ Spec.GoodGap p.gap) :
+    parseChars (Spec.printLits lead ps) = .ok e := by
+  rw [parseChars_printLits lead ps hl h, hps]
+  exact parse_print e he
+
+/-- **parse_spelling_lits**: the same for every token spelling of the tree. -/
+theorem parse_spelling_lits (e : Expr F) (lead : List Char) (ps : List (Spec.LitPiece F))
+    (hps : Spec.Spells 0 e (ps.map (·.lit.tok)))
+    (hl : lead.all isSpace = true) (h : ∀ p ∈ ps, p.lit.Ok ∧ Spec.GoodGap p.gap) :
+    parseChars (Spec.printLits lead ps) = .ok e := by
+  rw [parseChars_printLits lead ps hl h]
+  exact parse_spelling e _ hps
+
+/- `a & 0X8000000000000000` (i64::MIN as a literal: not spellable in decimal). -/
+example : parseChars (F := F) (Spec.printLits (F := F) []
+      [⟨.canon (.ident "a") (fun _ => false), [' ']⟩, ⟨.canon (.sym .and) (fun _ => true), [' ']⟩,
+       ⟨.hex true 0 (fun _ => true) (BitVec.ofNat 64 (2 ^ 63)), ['\n']⟩]) =
+    .ok (.binOp .bitAnd (.ident "a") (.int (BitVec.ofNat 64 (2 ^ 63)))) := by
+  apply parse_print_lits (.binOp .bitAnd (.ident "a") (.int (BitVec.ofNat 64 (2 ^ 63)))) (by simp [Spec.LegalIdents])
+  · rfl
+  · rfl
+  · intro p hp
+    simp only [List.mem_cons, List.not_mem_nil, or_false] at hp
+    rcases hp with rfl | rfl | rfl
+    · exact ⟨⟨'a', [], rfl, by decide, by decide⟩, by simp, by simp [isSpace]⟩
+    · exact ⟨trivial, by simp, by simp [isSpace]⟩
+    · exact ⟨trivial, by simp, by simp [isSpace]⟩
+
+/-- **two_char_operator_any_escape**: every operator token, in particular every two-character
+operator (`**` `&&` `||` `<>` `<=` `>=` `<<` `>>`), is read back for EVERY choice of XML escapes
+of its characters — first character, second character, both, none (`f 0`, `f 1` arbitrary):
+`&amp;&amp;`, `&&amp;`, `&amp;&`, `&lt;&gt;`, `<&gt;`, `&lt;>`, `&lt;&lt;`, `&gt;=` … -/
+theorem two_char_operator_any_escape (s : Sym) (f : Nat → Bool) (sp : Char) (rest : List Char)
+    (hsp : isSpace sp = true) :
+    (lexOne (Spec.escape f 0 (Spec.symChars s) ++ sp :: rest) : Option (Tok F × List Char)) =
+      some (.sym s, sp :: rest) :=
+  (lexOne_sym s f sp rest hsp).1
+
+/- the escape in the SECOND position only, and in both -/
+example : Spec.escape (fun i => i == 1) 0 (Spec.symChars .doubleAnd) = "&&amp;".toList ∧
+    Spec.escape (fun i => i == 1) 0 (Spec.symChars .ne) = "<&gt;".toList ∧
+    Spec.escape (fun _ => true) 0 (Spec.symChars .shl) = "&lt;&lt;".toList ∧
+    Spec.escape (fun i => i == 1) 0 (Spec.symChars .shr) = ">&gt;".toList := by
+  decide +kernel
+
+example : @lex Unit unitFloatOps "a &&amp; b <&gt; c &lt;&lt; d >&gt; e &amp;&amp; f &lt;&gt; g".toList =
+    [.ident "a", .sym .doubleAnd, .ident "b", .sym .ne, .ident "c", .sym .shl, .ident "d", .sym .shr,
+     .ident "e", .sym .doubleAnd, .ident "f", .sym .ne, .ident "g"] := by
+  decide +kernel
+
+/-! ## 11. Integer power -/
+
+/-- **int_pow_is_math_pow**: for EVERY integer base `a` and EVERY exponent `b ≥ 0` — including
+`b ≥ 2^32` (fix 6a76fb6: the exponent is not truncated to `u32`) and odd bases — the value of
+`a ** b`, whatever sub-formulas `l`, `r` produced the operands, is the mathematical power
+`a^b` reduced to 64 bits two's complement; in both build profiles, never a panic. -/
+theorem int_pow_is_math_pow (p : Profile) (env : Env F) (l r : Expr F) (a b : BitVec 64)
+    (hl : eval p env l = .ok (.int a)) (hr : eval p env r = .ok (.int b)) (hb : 0 ≤ b.toInt) :
+    eval p env (.binOp .pow l r) = .ok (.int (BitVec.ofInt 64 (a.toInt ^ b.toNat))) := by
+  have hs : b.slt 0#64 = false := by simp [BitVec.slt]; omega
+  have hw : wrappingPow a b = BitVec.ofInt 64 (a.toInt ^ b.toNat) := by
+    apply BitVec.eq_of_toInt_eq
+    rw [wrappingPow_ok, BitVec.toInt_ofInt]
+    rfl
+  simp [eval, hl, hr, evalBinStrict, EvalResult.isInteger, EvalResult.asInteger, hs, hw]
+
+/-- **int_pow_negative_exponent**: the documented behaviour for a negative integer exponent:
+the operation is carried out in floating point (`powf` of the converted operands). -/
+theorem int_pow_negative_exponent (p : Profile) (env : Env F) (l r : Expr F) (a b : BitVec 64)
+    (hl : eval p env l = .ok (.int a)) (hr : eval p env r = .ok (.int b)) (hb : b.toInt < 0) :
+    eval p env (.binOp .pow l r) =
+      .ok (.float (FloatOps.powf (FloatOps.ofInt a) (FloatOps.ofInt b))) := by
+  have hs : b.slt 0#64 = true := by simp [BitVec.slt]; omega
+  simp [eval, hl, hr, evalBinStrict, EvalResult.isInteger, EvalResult.asInteger, EvalResult.asFloat, hs]
+
+/- `3 ** (2^32 + 1)`: odd base, exponent above `u32::MAX` (a truncated exponent would give 3);
+`(-7) ** i64::MAX`; `2 ** -1` is floating point. -/
+example : eval (F := F) .dev (fun _ => none) (.binOp .pow (.int 3) (.int 0x100000001)) =
+      .ok (.int 0x67b8badc00000003) ∧
+    eval (F := F) .release (fun _ => none) (.binOp .pow (.int (-7)) (.int 0x7fffffffffffffff)) =
+      .ok (.int 0x9249249249249249) ∧
+    eval (F := F) .dev (fun _ => none) (.binOp .pow (.int 2) (.int (-1))) =
+      .ok (.float (FloatOps.powf (FloatOps.ofInt 2) (FloatOps.ofInt (-1)))) := by
+  have h1 : wrappingPow 3#64 4294967297#64 = 7473929035676909571#64 := by decide +kernel
+  have h2 : wrappingPow 18446744073709551609#64 9223372036854775807#64 = 10540996613548315209#64 := by decide +kernel
+  refine ⟨?_, ?_, ?_⟩
+  · simp [eval, evalBinStrict, EvalResult.isInteger, EvalResult.asInteger, h1, BitVec.slt]
+  · simp [eval, evalBinStrict, EvalResult.isInteger, EvalResult.asInteger, h2, BitVec.slt]
+  · rfl
+
+/-! ## 12. Character level: tokens written with no white space between them -/
+
+/-- **lex_gapfree**: `lex_printLits` with possibly EMPTY gaps: the white space after a token may
+be left out whenever the next token is `Spec.separable` from it — the first decoded character of
+the next token cannot extend the token under the lexer's maximal munch (`Spec.Lit.ext`: an
+identifier is extended by letters, digits, `.`, `_`; a decimal literal by digits, `.`, `e`, `E`,
+`x`, `X`; a hexadecimal literal by hexadecimal digits; a float literal by digits and, without
+an exponent, `.`, `e`, `E`; `*` by `*`, `&` by `&`, `|` by `|`, `<` by
+`>` `=` `<`, `>` by `=` `>`; nothing extends the other operators), and an unescaped `&` is not
+followed by `a`, `l`, `g`.  The lexer then returns exactly the token list: for every token
+list, escape choice, literal spelling and choice of gaps. -/
+theorem lex_gapfree (lead : List Char) (ps : List (Spec.LitPiece F))
+    (hl : lead.all isSpace = true) (h : ∀ p ∈ ps, p.lit.Ok ∧ p.gap.all isSpace = true)
+    (hch : Spec.chainOk ps = true) :
+    (lex (Spec.printLits lead ps) : List (Tok F)) = ps.map (·.lit.tok) :=
+  lex_gapfree_aux lead ps hl h hch
+
+/-- **parse_print_gapfree**: `formula::parse` on any such spelling (gaps optional where
+separable) of the minimal-parenthesis print of a tree returns that tree. -/
+theorem parse_print_gapfree (e : Expr F) (he : Spec.LegalIdents e) (lead : List Char)
+    (ps : List (Spec.LitPiece F)) (hps : ps.map (·.lit.tok) = Spec.printMin e)
+    (hl : lead.all isSpace = true) (h : ∀ p ∈ ps, p.lit.Ok ∧ p.gap.all isSpace = true)
+    (hch : Spec.chainOk ps = true) :
+    parseChars (Spec.printLits lead ps) = .ok e := by
+  rw [parseChars_gapfree lead ps hl h hch, hps]
+  exact parse_print e he
+
+/-- **parse_spelling_gapfree**: the same for every token spelling of the tree (`Spec.Spells`). -/
+theorem parse_spelling_gapfree (e : Expr F) (lead : List Char) (ps : List (Spec.LitPiece F))
+    (hps : Spec.Spells 0 e (ps.map (·.lit.tok)))
+    (hl : lead.all isSpace = true) (h : ∀ p ∈ ps, p.lit.Ok ∧ p.gap.all isSpace = true)
+    (hch : Spec.chainOk ps = true) :
+    parseChars (Spec.printLits lead ps) = .ok e := by
+  rw [parseChars_gapfree lead ps hl h hch]
+  exact parse_spelling e _ hps
+
+/-- the pieces of `(A+1)*-B<=0x3` with no white space at all -/
+def gapfreeExample : List (Spec.LitPiece F) :=
+  [⟨.canon (.sym .lparen) (fun _ => false), []⟩, ⟨.canon (.ident "A") (fun _ => false), []⟩,
+   ⟨.canon (.sym .plus) (fun _ => false), []⟩, ⟨.canon (.int 1) (fun _ => false), []⟩,
+   ⟨.canon (.sym .rparen) (fun _ => false), []⟩, ⟨.canon (.sym .star) (fun _ => false), []⟩,
+   ⟨.canon (.sym .minus) (fun _ => false), []⟩, ⟨.canon (.ident "B") (fun _ => false), []⟩,
+   ⟨.canon (.sym .le) (fun _ => false), []⟩, ⟨.hex false 0 (fun _ => false) 3, []⟩]
+
+example : Spec.printLits [] (gapfreeExample (F := Unit)) = "(A+1)*-B<=0x3".toList ∧
+    Spec.chainOk (gapfreeExample (F := Unit)) = true := by
+  decide +kernel
+
+example : parseChars (F := F) (Spec.printLits [] (gapfreeExample (F := F))) =
+    .ok (.binOp .le (.binOp .mul (.binOp .add (.ident "A") (.int 1)) (.unOp .neg (.ident "B"))) (.int 3)) := by
+  apply parse_print_gapfree
+    (.binOp .le (.binOp .mul (.binOp .add (.ident "A") (.int 1)) (.unOp .neg (.ident "B"))) (.int 3))
+    (by simp [Spec.LegalIdents])
+  · rfl
+  · rfl
+  · intro p hp
+    simp only [gapfreeExample, List.mem_cons, List.not_mem_nil, or_false] at hp
+    rcases hp with rfl | rfl | rfl | rfl | rfl | rfl | rfl | rfl | rfl | rfl <;>
+      first
+        | exact ⟨trivial, rfl⟩
+        | exact ⟨⟨'A', [], rfl, by decide, by decide⟩, rfl⟩
+        | exact ⟨⟨'B', [], rfl, by decide, by decide⟩, rfl⟩
+        | exact ⟨by simp [Spec.Lit.Ok, Spec.Spellable, I64_MAX], rfl⟩
+  · rfl
+
+/- `separable` is not a formality: `A` directly before `1` is the identifier `A1`, `<` directly
+before `=` is `<=`, `*` before `*` is `**`, `1` before `e5` is a float — and these pairs are not
+separable. -/
+example : @lex Unit unitFloatOps "A1".toList = [.ident "A1"] ∧
+    @lex Unit unitFloatOps "a<=b".toList = [.ident "a", .sym .le, .ident "b"] ∧
+    @lex Unit unitFloatOps "2**3".toList = [.int 2, .sym .doubleStar, .int 3] ∧
+    @lex Unit unitFloatOps "1e5".toList = [.float ()] ∧
+    Spec.separable (F := Unit) (.canon (.ident "A") (fun _ => false)) (.canon (.int 1) (fun _ => false)) = false ∧
+    Spec.separable (F := Unit) (.canon (.sym .lt) (fun _ => false)) (.canon (.sym .eq) (fun _ => false)) = false ∧
+    Spec.separable (F := Unit) (.canon (.sym .star) (fun _ => false)) (.canon (.sym .star) (fun _ => false)) = false ∧
+    Spec.separable (F := Unit) (.canon (.int 1) (fun _ => false)) (.canon (.ident "e5") (fun _ => false)) = false := by
+  decide +kernel
+
+/-! ## 13. Character level: float literal text -/
+
+/-- **lex_float_literal**: for EVERY well-formed float literal text (`Spec.FloatText.Ok`: integer
+digits, optional `.` and fraction digits, optional exponent `e`/`E` with optional sign — at
+least one mantissa digit, a `.` or an exponent, exponent digits not empty; forms `1.5`, `1.`,
+`.5`, `1e3`, `1.5E-3`, `.5e+2` …) followed by anything that cannot extend it, the lexer
+produces the float token `FloatOps.ofDec m e` where `m` is the number spelled by ALL mantissa
+digits (integer part then fraction) and `e` is the written exponent minus the number of fraction
+digits — i.e. it hands exactly the decimal number `m·10^e` of the text to `f64::from_str`
+(fix 60c4d5f for the exponent forms).  `ofDec` itself (correct rounding) stays abstract. -/
+theorem lex_float_literal (t : Spec.FloatText) (hok : t.Ok) (sp : Char) (rest : List Char)
+    (hsp : isSpace sp = true) :
+    (lexOne (t.chars ++ sp :: rest) : Option (Tok F × List Char)) =
+      some (.float (FloatOps.ofDec (digitsToNat (t.ip ++ t.fp))
+        (t.expValue - (t.fp.length : Int))), sp :: rest) := by
+  have hst : Stop t.ext (sp :: rest) :=
+    Or.inr ⟨sp, rest, nextChar_plain sp rest (ne_of_pred isSpace sp '&' hsp (by decide)),
+      space_not_ext (F := F) (.float t) hok sp hsp⟩
+  exact (lexOne_float_gen (F := F) t hok _ hst).1
+
+/- `12.50e-3`: mantissa digits 1250, exponent -3 - 2 = -5;  `.5`: 5·10^-1;  `1E+2`: 1·10^2. -/
+example (sp : Char) (rest : List Char) (hsp : isSpace sp = true) :
+    (lexOne ("12.50e-3".toList ++ sp :: rest) : Option (Tok F × List Char)) =
+      some (.float (FloatOps.ofDec 1250 (-5)), sp :: rest) ∧
+    (lexOne (".5".toList ++ sp :: rest) : Option (Tok F × List Char)) =
+      some (.float (FloatOps.ofDec 5 (-1)), sp :: rest) ∧
+    (lexOne ("1E+2".toList ++ sp :: rest) : Option (Tok F × List Char)) =
+      some (.float (FloatOps.ofDec 1 2), sp :: rest) := by
+  refine ⟨?_, ?_, ?_⟩
+  · exact lex_float_literal ⟨['1', '2'], true, ['5', '0'], some ⟨false, some true, ['3']⟩⟩
+      (by simp [Spec.FloatText.Ok, isDigit]) sp rest hsp
+  · exact lex_float_literal ⟨[], true, ['5'], none⟩ (by simp [Spec.FloatText.Ok, isDigit]) sp rest hsp
+  · exact lex_float_literal ⟨['1'], false, [], some ⟨true, some false, ['2']⟩⟩
+      (by simp [Spec.FloatText.Ok, isDigit]) sp rest hsp
+
+/-- the pieces of `2*1.5e-3<.5` with no white space (float literals are literals of
+`lex_gapfree` / `parse_print_gapfree` like any other) -/
+def gapfreeFloatExample : List (Spec.LitPiece F) :=
+  [⟨.canon (.int 2) (fun _ => false), []⟩, ⟨.canon (.sym .star) (fun _ => false), []⟩,
+   ⟨.float ⟨['1'], true, ['5'], some ⟨false, some true, ['3']⟩⟩, []⟩,
+   ⟨.canon (.sym .lt) (fun _ => false), []⟩, ⟨.float ⟨[], true, ['5'], none⟩, []⟩]
+
+example : Spec.printLits [] (gapfreeFloatExample (F := Unit)) = "2*1.5e-3<.5".toList ∧
+    Spec.chainOk (gapfreeFloatExample (F := Unit)) = true := by
+  decide +kernel
+
+example : parseChars (F := F) (Spec.printLits [] (gapfreeFloatExample (F := F))) =
+    .ok (.binOp .lt (.binOp .mul (.int 2) (.float (FloatOps.ofDec 15 (-4)))) (.float (FloatOps.ofDec 5 (-1)))) := by
+  apply parse_print_gapfree
+    (.binOp .lt (.binOp .mul (.int 2) (.float (FloatOps.ofDec 15 (-4)))) (.float (FloatOps.ofDec 5 (-1))))
+    (by simp [Spec.LegalIdents])
+  · rfl
+  · rfl
+  · intro p hp
+    simp only [gapfreeFloatExample, List.mem_cons, List.not_mem_nil, or_false] at hp
+    rcases hp with rfl | rfl | rfl | rfl | rfl <;> refine ⟨?_, rfl⟩ <;>
+      first
+        | exact trivial
+        | (show Spec.FloatText.Ok _; simp [Spec.FloatText.Ok, isDigit]; done)
+        | (simp [Spec.Lit.Ok, Spec.Spellable, I64_MAX]; done)
+  · rfl
+
+/-! ## 14. Cyclic bindings in operands that are never evaluated -/
+
+private theorem toSRes_bind' {x : R (EvalResult F)} {sx : Except SErr (SVal F)}
+    {f : EvalResult F → R (EvalResult F)} {g : SVal F → Except SErr (SVal F)}
+    (hx : toSRes x = some sx) (hf : ∀ v, sx = .ok (toSVal v) → toSRes (f v) = some (g (toSVal v))) :
+    toSRes (x >>= f) = some (sx >>= g) := by
+  cases x with
+  | ok v =>
+    simp only [toSRes_ok, Option.some.injEq] at hx
+    subst hx
+    exact hf v rfl
+  | err e =>
+    cases e <;> simp only [toSRes, Option.some.injEq, reduceCtorEq] at hx <;> subst hx <;> rfl
+  | panic => simp [toSRes] at hx
+
+private theorem lazy_step (p : Profile) (env : EnvX F) (fuel : Nat)
+    (H : ∀ f, fuel = f + 1 → ∀ (vis : List String) (e e' : Expr F),
+      Spec.expandLazy env vis f e = some e' →
+      toSRes (evalXV p env vis f e) = some (Spec.eval (fun _ => none) e')) :
+    ∀ (vis : List String) (e e' : Expr F), Spec.expandLazy env vis fuel e = some e' →
+      toSRes (evalXV p env vis fuel e) = some (Spec.eval (fun _ => none) e') := by
+  intro vis e
+  induction e with
+  | int i => intro e' h; simp only [Spec.expandLazy, Option.some.injEq] at h; subst h; simp [evalXV, Spec.eval]; rfl
+  | float f => intro e' h; simp only [Spec.expandLazy, Option.some.injEq] at h; subst h; simp [evalXV, Spec.eval]; rfl
+  | ident s =>
+    intro e' h
+    simp only [Spec.expandLazy] at h
+    split at h
+    · simp at h
+    · next hv =>
+      split at h
+      · next hn =>
+        simp only [Option.some.injEq] at h; subst h
+        simp [evalXV, hv, hn, Spec.eval]; rfl
+      · next b hb =>
+        cases fuel with
+        | zero => simp at h
+        | succ f =>
+          simp only [evalXV, hv, hb]
+          simpa using H f rfl (s :: vis) b e' h
+  | unOp k x ih =>
+    intro e' h
+    simp only [Spec.expandLazy] at h
+    obtain ⟨x', hx, h⟩ := opt_bind_some h
+    simp only [pure, Option.some.injEq] at h; subst h
+    simp only [evalXV, Spec.eval]
+    exact toSRes_bind (ih x' hx) (fun v => by simp [evalUn_ok]; rfl)
+  | ite c t e ihc iht ihe =>
+    intro e' h
+    simp only [Spec.expandLazy] at h
+    obtain ⟨c', hc, h⟩ := opt_bind_some h
+    have ic := ihc c' hc
+    cases hsc : Spec.eval (fun _ => none) c' with
+    | error er =>
+      simp only [hsc, Spec.truthOf, pure, Option.some.injEq] at h; subst h
+      simp only [evalXV, Spec.eval]
+      refine toSRes_bind' ic (fun a ha => ?_)
+      rw [hsc] at ha; cases ha
+    | ok v =>
+      cases hb : v.truthy with
+      | true =>
+        simp only [hsc, Spec.truthOf, hb] at h
+        obtain ⟨t', ht, h⟩ := opt_bind_some h
+        simp only [pure, Option.some.injEq] at h; subst h
+        simp only [evalXV, Spec.eval]
+        refine toSRes_bind' ic (fun a ha => ?_)
+        rw [hsc] at ha; injection ha with ha; subst ha
+        rw [hb]
+        rw [toSVal_truthy] at hb
+        simp only [hb, if_true]
+        exact iht t' ht
+      | false =>
+        simp only [hsc, Spec.truthOf, hb] at h
+        obtain ⟨e2, he, h⟩ := opt_bind_some h
+        simp only [pure, Option.some.injEq] at h; subst h
+        simp only [evalXV, Spec.eval]
+        refine toSRes_bind' ic (fun a ha => ?_)
+        rw [hsc] at ha; injection ha with ha; subst ha
+        rw [hb]
+        rw [toSVal_truthy] at hb
+        simp only [hb, Bool.false_eq_true, if_false]
+        exact ihe e2 he
+  | binOp k l r ihl ihr =>
+    intro e' h
+    cases k
+    case and =>
+      simp only [Spec.expandLazy] at h
+      obtain ⟨l', hl, h⟩ := opt_bind_some h
+      have il := ihl l' hl
+      cases hsl : Spec.eval (fun _ => none) l' with
+      | error er =>
+        simp only [hsl, Spec.truthOf, pure, Option.some.injEq] at h; subst h
+        simp only [evalXV, Spec.eval]
+        refine toSRes_bind' il (fun a ha => ?_)
+        rw [hsl] at ha; cases ha
+      | ok v =>
+        cases hb : v.truthy with
+        | true =>
+          simp only [hsl, Spec.truthOf, hb] at h
+          obtain ⟨r', hr, h⟩ := opt_bind_some h
+          simp only [pure, Option.some.injEq] at h; subst h
+          have ir := ihr r' hr
+          simp only [evalXV, Spec.eval]
+          refine toSRes_bind il (fun a => ?_)
+          rw [toSVal_truthy]
+          split
+          · exact toSRes_bind ir (fun b => by simp; rfl)
+          · simp; rfl
+        | false =>
+          simp only [hsl, Spec.truthOf, hb, pure, Option.some.injEq] at h; subst h
+          simp only [evalXV, Spec.eval]
+          refine toSRes_bind' il (fun a ha => ?_)
+          rw [hsl] at ha; injection ha with ha; subst ha
+          rw [hb]
+          rw [toSVal_truthy] at hb
+          simp [hb]; rfl
+    case or =>
+      simp only [Spec.expandLazy] at h
+      obtain ⟨l', hl, h⟩ := opt_bind_some h
+      have il := ihl l' hl
+      cases hsl : Spec.eval (fun _ => none) l' with
+      | error er =>
+        simp only [hsl, Spec.truthOf, pure, Option.some.injEq] at h; subst h
+        simp only [evalXV, Spec.eval]
+        refine toSRes_bind' il (fun a ha => ?_)
+        rw [hsl] at ha; cases ha
+      | ok v =>
+        cases hb : v.truthy with
+        | false =>
+          simp only [hsl, Spec.truthOf, hb] at h
+          obtain ⟨r', hr, h⟩ := opt_bind_some h
+          simp only [pure, Option.some.injEq] at h; subst h
+          have ir := ihr r' hr
+          simp only [evalXV, Spec.eval]
+          refine toSRes_bind il (fun a => ?_)
+          rw [toSVal_truthy]
+          split
+          · simp; rfl
+          · exact toSRes_bind ir (fun b => by simp; rfl)
+        | true =>
+          simp only [hsl, Spec.truthOf, hb, pure, Option.some.injEq] at h; subst h
+          simp only [evalXV, Spec.eval]
+          refine toSRes_bind' il (fun a ha => ?_)
+          rw [hsl] at ha; injection ha with ha; subst ha
+          rw [hb]
+          rw [toSVal_truthy] at hb
+          simp [hb]; rfl
+    all_goals
+      simp only [Spec.expandLazy] at h
+      obtain ⟨l', hl, h⟩ := opt_bind_some h
+      have il := ihl l' hl
+      cases hsl : Spec.eval (fun _ => none) l' with
+      | error er =>
+        simp only [hsl, Spec.truthOf, pure, Option.some.injEq] at h; subst h
+        simp only [evalXV, Spec.eval]
+        refine toSRes_bind' il (fun a ha => ?_)
+        rw [hsl] at ha; cases ha
+      | ok v =>
+        simp only [hsl, Spec.truthOf] at h
+        obtain ⟨r', hr, h⟩ := opt_bind_some h
+        simp only [pure, Option.some.injEq] at h; subst h
+        simp only [evalXV, Spec.eval]
+        exact toSRes_bind il (fun a => toSRes_bind (ihr r' hr)
+          (fun b => evalBinStrict_ok _ (by decide) (by decide) a b))
+
+/-- **evalX_refines_lazy_reference**: the reference OUTCOME of a formula over `<Expression>`
+bindings that are cyclic only in operands which are never evaluated.  `Spec.expandLazy` replaces
+every bound name by its recursively expanded expression — but does not expand (and so does not
+care about cycles in) the right operand of `&&` / `||` when the left operand decides, the right
+operand of any binary operator when the left operand is an error, nor the branch of `?:` that
+is not selected; those operands are replaced by the literal
+`0`, which the lazy reference evaluator never looks at.  Whenever this lazy expansion exists,
+the model of `Expr::eval_in` returns exactly the reference value of the lazily expanded formula:
+for every environment (also cyclic), both profiles, any names already being expanded.  It
+strictly extends `evalX_refines_reference` (where the full expansion must exist). -/
+theorem evalX_refines_lazy_reference (p : Profile) (env : EnvX F) (vis : List String) (fuel : Nat)
+    (e e' : Expr F) (h : Spec.expandLazy env vis fuel e = some e') :
+    toSRes (evalXV p env vis fuel e) = some (Spec.eval (fun _ => none) e') := by
+  induction fuel generalizing vis e e' with
+  | zero => exact lazy_step p env 0 (fun f hf => by cases hf) vis e e' h
+  | succ n ih =>
+    exact lazy_step p env (n + 1) (fun f hf vis e e' h => by cases hf; exact ih vis e e' h) vis e e' h
+
+/-- **evalX_lazy_reference_public**: the same for the public entry point `Expr::eval` and an
+environment given as a list of bindings. -/
+theorem evalX_lazy_reference_public (p : Profile) (bs : List (String × Expr F)) (e e' : Expr F)
+    (h : Spec.expandLazy (Spec.envOfList bs) [] (bs.length + 1) e = some e') :
+    toSRes (evalX p (Spec.envOfList bs) (bs.length + 1) e) = some (Spec.eval (fun _ => none) e') :=
+  evalX_refines_lazy_reference p _ [] _ e e' h
+
+/- `A := A + 1` is cyclic; `0 && A`, `1 || A`, `1 ? 7 : A` never evaluate it: the full expansion
+does not exist, the lazy one does, and the values are 0, 1, 7.  `1 && A` does evaluate it. -/
+example :
+    let env : EnvX F := fun s => if s = "A" then some (.binOp .add (.ident "A") (.int 1)) else none
+    Spec.expand env [] 2 (.binOp .and (.int 0) (.ident "A")) = none ∧
+    Spec.expandLazy env [] 2 (.binOp .and (.int 0) (.ident "A")) = some (.binOp .and (.int 0) (.int 0)) ∧
+    evalX (F := F) .dev env 2 (.binOp .and (.int 0) (.ident "A")) = .ok (.int 0) ∧
+    evalX (F := F) .dev env 2 (.binOp .or (.int 1) (.ident "A")) = .ok (.int 1) ∧
+    evalX (F := F) .dev env 2 (.ite (.int 1) (.int 7) (.ident "A")) = .ok (.int 7) ∧
+    Spec.expandLazy env [] 2 (.binOp .and (.int 1) (.ident "A")) = none ∧
+    evalX (F := F) .dev env 2 (.binOp .and (.int 1) (.ident "A")) = .err .invalidNode := by
+  intro env
+  refine ⟨?_, ?_, ?_, ?_, ?_, ?_, ?_⟩ <;> simp [env, Spec.expand, Spec.expandLazy, Spec.truthOf, Spec.eval,
+    evalX, evalXV, EvalResult.asBool, EvalResult.ofBool, Spec.SVal.truthy] <;> rfl
+
+/- an unknown identifier on the left of a strict operator: the cyclic right operand is not
+evaluated, the outcome is the error of the left operand. -/
+example :
+    let env : EnvX F := fun s => if s = "A" then some (.binOp .add (.ident "A") (.int 1)) else none
+    Spec.expandLazy env [] 2 (.binOp .add (.ident "U") (.ident "A")) =
+      some (.binOp .add (.ident "U") (.int 0)) ∧
+    toSRes (evalX (F := F) .dev env 2 (.binOp .add (.ident "U") (.ident "A"))) =
+      some (.error .unknownIdent) := by
+  intro env
+  have h : Spec.expandLazy env [] 2 (.binOp .add (.ident "U") (.ident "A")) =
+      some (.binOp .add (.ident "U") (.int 0)) := by
+    simp [env, Spec.expandLazy, Spec.truthOf, Spec.eval]; rfl
+  exact ⟨h, by rw [evalX, evalX_refines_lazy_reference _ _ _ _ _ _ h]; rfl⟩
 
 end CamVerif.C05
